@@ -357,7 +357,7 @@ impl Player {
     fn ledger_calldata(&mut self, lc: &Value) -> Vec<u8> {
         let f = lc["fn"].as_str().unwrap_or("");
         let on = lc["on"].as_str().unwrap_or("ctrl");
-        let tk: Bytes = lc["spell"].as_str().or(lc["tk"].as_str()).unwrap_or("").as_bytes().to_vec().into();
+        let tk: Bytes = Self::ticker_real(lc["tk"].as_str().unwrap_or("")).as_bytes().to_vec().into();
         let a = self.names.addr(lc["a"].as_str().unwrap_or("zero")).unwrap_or(Address::ZERO);
         let b = self.names.addr(lc["b"].as_str().unwrap_or("zero")).unwrap_or(Address::ZERO);
         let v = names::amount_of(lc["v"].as_u64().unwrap_or(0));
@@ -379,6 +379,15 @@ impl Player {
                 "burn" => tok_abi::burnCall::new((a, v)).abi_encode(),
                 _ => vec![],
             }
+        }
+    }
+
+    /// spelling tokens of the schedule -> the ticker actually sent ("U:ETH"/"u:eth" differ only in the case of a non-ASCII letter)
+    pub fn ticker_real(spell: &str) -> String {
+        match spell {
+            "U:ETH" => "ÉTH".to_string(),
+            "u:eth" => "éth".to_string(),
+            x => x.to_string(),
         }
     }
 
@@ -609,10 +618,17 @@ impl Player {
                 let holder = step["holder"].as_str().unwrap_or("s1").to_string();
                 let spell = step["ticker"].as_str().unwrap_or("ordi").to_string();
                 let tk = step["tk"].as_str().map(|s| s.to_string()).unwrap_or(spell.to_ascii_lowercase());
+                // every known spelling of this ticker is watched from now on
+                for other in ["ordi", "OrDi", "ORDI", "sats", "U:ETH", "u:eth"] {
+                    let canon = if other.ends_with("TH") || other.ends_with("th") { "u:eth".to_string() } else { other.to_ascii_lowercase() };
+                    if canon == tk {
+                        self.u_bal.insert((tk.clone(), other.to_string(), holder.clone()));
+                    }
+                }
                 let amt = step["amt"].as_u64().unwrap_or(0);
                 let pk = if holder == "zero" { String::new() } else { names::pkscript(&holder) };
                 params.insert(if via == "deposit" { "to_pkscript" } else { "from_pkscript" }.into(), json!(pk));
-                params.insert("ticker".into(), json!(spell));
+                params.insert("ticker".into(), json!(Self::ticker_real(&spell)));
                 params.insert("amount".into(), json!(format!("{:#x}", names::amount_of(amt))));
                 self.u_bal.insert((tk.clone(), spell.clone(), holder.clone()));
                 self.u_bal.insert((tk.clone(), tk.clone(), holder.clone()));
@@ -1024,7 +1040,7 @@ impl Player {
             let mut tks = BTreeSet::new();
             for (tk, spell, holder) in self.u_bal.clone() {
                 tks.insert(tk.clone());
-                let r = self.get("brc20_balance", json!([names::pkscript(&holder), spell]));
+                let r = self.get("brc20_balance", json!([names::pkscript(&holder), Self::ticker_real(&spell)]));
                 let v = r.ok().and_then(|v| v.as_str().map(|s| s.to_string())).and_then(|s| U256::from_str_radix(s.trim_start_matches("0x"), 16).ok());
                 let holder_is_sender = holder.starts_with('s');
                 if holder_is_sender {
@@ -1049,7 +1065,7 @@ impl Player {
     }
 
     fn token_supply(&mut self, tk: &str) -> (String, Value, bool) {
-        let data = ctrl_abi::getTickerAddressCall::new((tk.as_bytes().to_vec().into(),)).abi_encode();
+        let data = ctrl_abi::getTickerAddressCall::new((Self::ticker_real(tk).as_bytes().to_vec().into(),)).abi_encode();
         let r = self.get("eth_call", json!([{"to": names::CONTROLLER, "data": hexs(&data)}]));
         let Some(out) = r.ok().and_then(|v| v.as_str().map(|s| s.to_string())) else {
             return ("NULL".into(), json!(0), true);
